@@ -2123,7 +2123,14 @@ def gen21(rng, tier):
                 blk = tpre + [['kwait', marker[0]], mark()]
             else:
                 blk = [['key', 'STOP'], ['kwait', marker[0]], mark()] + tpre + [['key', rng.choice(['ON', 'ON', 'ON', 'OFF'])], mark()]
-            host = ops[rng.randrange(len(ids) + len(sub_ids))]['stmts'] if rng.random() < 0.9 else tstm
+            # mostly early in the main program, where it is most likely to be reached
+            hr = rng.random()
+            if hr < 0.65:
+                host = ops[min(rng.randrange(len(ids)), rng.randrange(len(ids)))]['stmts']
+            elif hr < 0.92:
+                host = ops[rng.randrange(len(ids) + len(sub_ids))]['stmts']
+            else:
+                host = tstm
             cuts = [i for i in range(len(host) + 1) if i == 0 or host[i - 1][0] not in ('sel', 'selh', 'selb', 'seti')]
             at = rng.choice(cuts)
             host[at:at] = blk
